@@ -94,7 +94,11 @@ def fault_cases(rng, n):
         text = pre + tmpl
         off = text.index('@', len(pre))
         text = text[:off] + text[off + 1:]
-        out.append((parsecase.T2T(text, lang='en', pack='*', files=dict(universe.FILES)),
+        # the options that change how maths and text are rendered
+        out.append((parsecase.T2T(text, lang=rng.choice(['en', 'en', 'de', 'ru']), pack='*',
+                                  seqs=rng.random() < 0.3,
+                                  dcls=rng.choice(['', '', 'article', 'scrartcl']),
+                                  files=dict(universe.FILES)),
                     {'fault': name, 'offset': off, 'keep': keep, 'pre': pre}, 'fault'))
     return out
 
